@@ -1,6 +1,7 @@
 """C18 — malformed proofs are reported as errors, not crashes."""
 import json
 import os
+import cfg as cfgmod
 import common
 import dataflow
 import exprtree
@@ -44,6 +45,58 @@ def const_nonzero(db, tree):
 
 def is_pow2(tree):
     return isinstance(tree, tuple) and tree[0] in ('pow', 'pow_felt') and len(tree) == 3 and tree[1] == ('val', 2)
+
+
+_AN = {}
+_CALLERS = {}
+
+
+def analysis(db, fn):
+    k = (db.config, fn.path)
+    if k not in _AN:
+        fl = dataflow.Flow(db, fn)
+        _AN[k] = (exprtree.Trees(db, fn), fl, fn.dominators(), dataflow.own_guards(db, fn, fl))
+    return _AN[k]
+
+
+def callers_of(db, path):
+    if db.config not in _CALLERS:
+        idx = {}
+        for p, f in db.fns.items():
+            if not f.has_mir or f.compact:
+                continue
+            for bi, t in f.calls():
+                for c in db.resolve(t['f']):
+                    idx.setdefault(c, []).append((f, bi, t))
+        _CALLERS[db.config] = idx
+    return _CALLERS[db.config].get(path, [])
+
+
+def nonzero(db, fn, op, bb, depth=0):
+    """the integer operand `op`, used in block `bb` of fn, cannot be zero: a non-zero constant, a value whose only
+    source is tested != 0 by a guard that dominates the use (own_guards keeps only tests whose failing side cannot
+    reach an accepting exit), or a parameter that every caller in the workspace passes such a value for"""
+    T, fl, dom, guards = analysis(db, fn)
+    tr = T.operand(op)
+    if isinstance(tr, tuple) and tr[0] == 'val' and tr[1] >= 1:
+        return 'non-zero constant'
+    lv = set(fl.operand_leaves(op))
+    if not lv or any(x.startswith('op:') or x.startswith('lit:') for x in lv):
+        return None
+    if bb in cfgmod.reach_accept(fn):
+        for g in guards:
+            if g.bb in dom.get(bb, ()) and g.bb != bb and g.covers == 'all' and g.rel == 'NE':
+                sides = (set(g.lhs), set(g.rhs))
+                if {'lit:0'} in sides and lv in sides:
+                    return 'tested non-zero by a dominating guard'
+    if len(lv) == 1 and depth < 2 and fn.kind != 'closure':
+        (leaf,) = lv
+        if leaf.startswith('a') and leaf[1:].isdigit() and 1 <= int(leaf[1:]) <= fn.arg_count:
+            k = int(leaf[1:]) - 1
+            cs = callers_of(db, fn.path)
+            if cs and all(len(t.get('args', [])) > k and nonzero(db, cf, t['args'][k], bi, depth + 1) for cf, bi, t in cs):
+                return f'parameter {k + 1}: every caller ({len(cs)}) passes a value tested non-zero'
+    return None
 
 
 def auto_discharge(db, fn, site, T, fl, dom, guards):
@@ -94,11 +147,9 @@ def auto_discharge(db, fn, site, T, fl, dom, guards):
                             # the unwrap must be on the true side: accept when the test's block dominates
                             return 'dominated by is_some/is_ok on the same value'
             return None
-        if d == 'step_by':
-            tr = T.operand(args[1]) if len(args) > 1 else None
-            if isinstance(tr, tuple) and tr[0] == 'val' and tr[1] >= 1:
-                return 'constant non-zero step'
-            return None
+        if d in ('step_by', 'chunks', 'chunks_exact', 'windows', 'rchunks'):
+            # these panic exactly when the step / chunk size is zero
+            return nonzero(db, fn, args[1], site['bb']) if len(args) > 1 else None
         if d == 'index':
             tr = T.operand(args[1]) if len(args) > 1 else None
             base = exprtree.show(T.operand(args[0])) if args else ''
@@ -116,6 +167,23 @@ def auto_discharge(db, fn, site, T, fl, dom, guards):
                 if kind == 'RangeInclusive' and sv is not None and ev is not None and sv <= ev < 32:
                     return 'constant sub-range of a 32-byte digest'
             return None
+    if site['kind'] == 'assert' and d in ('DivisionByZero', 'RemainderByZero'):
+        # MIR: the divisor is the assert's only message operand; a dominating guard `divisor != 0` whose failing side
+        # cannot continue (own_guards keeps only such branches) discharges it, provided the site itself is on a path
+        # that can still accept (i.e. not on the guard's failing side)
+        cl = op_place(t.get('cond')) if t.get('cond') else None
+        ds = common.defs_of(fn).get(cl['l'], []) if cl and not cl['p'] else []
+        if len(ds) != 1 or ds[0][1] != 'assign' or ds[0][2].get('k') != 'bin' or ds[0][2].get('op') != 'Eq':
+            return None
+        a, b = ds[0][2]['a'], ds[0][2]['b']
+        zero = [x for x in (a, b) if op_place(x) is None and fl.operand_leaves(x) == {'lit:0'}]
+        divs = [x for x in (a, b) if op_place(x) is not None]
+        if len(zero) != 1 or len(divs) != 1:
+            return None
+        lv = set(fl.operand_leaves(divs[0]))
+        if not lv or any(x.startswith('op:') or x.startswith('lit:') for x in lv):
+            return None
+        return nonzero(db, fn, divs[0], site['bb'])
     return None
 
 THOROUGH_MAIN_CONFIGS = ['b248s6', 'nostd']
@@ -134,6 +202,8 @@ def run(ctx, rep):
     n_sites = n_auto = n_table = 0
     guard_ok = guard_checker(db, lay)
     used_safe = set()
+    pending = {}
+    table_counts = {}
     kinds_by_layout = {}
     for p in sorted(R):
         fn = db.fns[p]
@@ -143,6 +213,8 @@ def run(ctx, rep):
             continue
         ss = panics.sites(db, fn)
         if not ss:
+            if common_layout_of(p) and p.endswith('::verify_public_input'):
+                kinds_by_layout[common_layout_of(p)] = []
             continue
         T = exprtree.Trees(db, fn)
         fl = dataflow.Flow(db, fn)
@@ -165,22 +237,36 @@ def run(ctx, rep):
         if m and p.endswith('::verify_public_input'):
             kinds_by_layout[m] = sorted((kd, len(v)) for kd, v in remaining.items())
         for kd, lst in remaining.items():
-            tkey = f'{p}|{kd}'
-            ent = safe.get(tkey)
             for o, s in lst:
-                key = f'{p}|{kd}|{o}'
-                if ent is not None and (ent.get('ordinals') is None or o in ent['ordinals']):
-                    used_safe.add(tkey)
-                    missing = [g for g in ent.get('needs', []) if not guard_ok(g)]
-                    n_table += 1
-                    rep.ob('C18.site', key, not missing,
-                           (f"table: {ent['reason']}" if not missing else
-                            f"site was safe because of guard(s) {missing}, which no longer exist: {ent['reason']}"),
-                           fn.loc(s['line']), cfg, sample=(n_table == 1))
-                else:
-                    rep.ob('C18.site', key, False,
-                           f"{kd} in {p} can panic on a malformed proof and has no disposition (not auto-discharged, not in tables/c18_safe.json)",
-                           fn.loc(s['line']), cfg)
+                pending.setdefault((root_fn(p), kd), []).append((p, o, s, fn))
+    # dispositions from the table: one entry per <function>|<kind>; the sites of a function's closures are looked up
+    # under the closure's own path first and under the enclosing function otherwise (moving code into or out of a
+    # closure does not change what it can do), and an entry covers at most `count` sites (the number confirmed by
+    # reading): a further site of the same kind in the same function has no disposition
+    for (rp, kd), lst in sorted(pending.items()):
+        used_n = {}
+        for p, o, s, fn in lst:
+            key = f'{p}|{kd}|{o}'
+            tkey = f'{p}|{kd}' if f'{p}|{kd}' in safe else f'{rp}|{kd}'
+            ent = safe.get(tkey)
+            if ent is not None and (ent.get('ordinals') is None or o in ent['ordinals']) and \
+                    used_n.get(tkey, 0) < ent.get('count', 1 << 30):
+                used_n[tkey] = used_n.get(tkey, 0) + 1
+                used_safe.add(tkey)
+                missing = [g for g in ent.get('needs', []) if not guard_ok(g)]
+                n_table += 1
+                rep.ob('C18.site', key, not missing,
+                       (f"table: {ent['reason']}" if not missing else
+                        f"site was safe because of guard(s) {missing}, which no longer exist: {ent['reason']}"),
+                       fn.loc(s['line']), cfg, sample=(n_table == 1))
+            else:
+                extra = '' if ent is None else f" (the table entry {tkey} covers {ent.get('count')} site(s); this one is additional)"
+                rep.ob('C18.site', key, False,
+                       f"{kd} in {p} can panic on a malformed proof and has no disposition (not auto-discharged, not in tables/c18_safe.json){extra}",
+                       fn.loc(s['line']), cfg)
+        for tkey, n in used_n.items():
+            table_counts[tkey] = max(table_counts.get(tkey, 0), n)
+    rep.note('table_entry_site_counts', table_counts)
     stale = sorted(k for k in safe if k not in used_safe and not k.startswith('_'))
     rep.note('safe_table_entries_unused', stale[:20])
     rep.note('counts', {'functions': len(R), 'sites': n_sites, 'auto': n_auto, 'table': n_table})
@@ -196,6 +282,11 @@ def run(ctx, rep):
             rep.ob('C18.sibling', f'{l}/verify_public_input', json.dumps(v) == common_sig,
                    f'{l}::verify_public_input has undischarged site kinds {v}; the majority of its siblings have {json.loads(common_sig)}',
                    '', cfg)
+
+
+def root_fn(path):
+    import re
+    return re.sub(r'(::\{closure#\d+\})+$', '', path)
 
 
 def common_layout_of(path):
